@@ -33,6 +33,7 @@ def profiles(tier):
     st += [("add_edge", (1, 2), None, None, None),  # bare scalars as source/target
            ("remove_edges", ((Q6[0], None), (Q6[1], None))),
            ("remove_edges", ((Q6[0], None), (((1,), (99,)), None))),
+           ("remove_edges", ((Q6[5], None), (Q6[2], None), (((2, 1), (3,)), None))),  # same hyperedge in two listings -> rejected, nothing removed
            ("remove_nodes", (1, 2), False), ("remove_nodes", (3, 99), False), ("remove_nodes", (3, 1), True)]
     P.append(("closure", Profile("structure", spec, False, st), {}))
     w4 = [(Q6[0], None), (Q6[1], None), (Q6[4], None), (Q6[2], None)]
